@@ -783,6 +783,105 @@ theorem C08_ungapped (M : Mat) (g : Int) (a b : Seq) (h : a.length = b.length) :
   · rw [C08_checker_score_lin _ _ _ _ _ (by decide)]
     exact C08_upper_lin M g a b _ hv
 
+
+
+theorem startsAff_ne_nil (mode : Mode) (M : Mat) (go ge : Int) (a b : Seq) :
+    startsAff mode (affRec mode M go ge a b).val a.length b.length ≠ [] := by
+  have h3 : ∀ (c : AffCell) (k : Kind) (v : Int), (k = .m ∨ k = .ga ∨ k = .gb) → stateVal c k = some v →
+      c.best = some v → (([(Kind.m, c.m), (Kind.ga, c.g1), (Kind.gb, c.g2)].filter
+        fun x => x.2.isSome && x.2 == c.best).map fun x => ((a.length, b.length), x.1)) ≠ [] := by
+    intro c k v hk hv hb hnil
+    simp only [List.map_eq_nil_iff, List.filter_eq_nil_iff] at hnil
+    rcases hk with rfl | rfl | rfl
+    · exact absurd (hnil (Kind.m, c.m) (by simp)) (by simp [stateVal] at hv; simp [hv, hb])
+    · exact absurd (hnil (Kind.ga, c.g1) (by simp)) (by simp [stateVal] at hv; simp [hv, hb])
+    · exact absurd (hnil (Kind.gb, c.g2) (by simp)) (by simp [stateVal] at hv; simp [hv, hb])
+  cases mode with
+  | global =>
+    obtain ⟨k, v, _, hv⟩ := aff_has_real_global M go ge a b a.length b.length
+    obtain ⟨bv, hb, _⟩ := stateVal_le_best _ _ _ hv
+    obtain ⟨kb, hkb, hvb⟩ := best_cases _ _ hb
+    exact h3 _ kb bv hkb hvb hb
+  | semi =>
+    obtain ⟨k, v, _, hv⟩ := aff_has_real_semi M go ge a b a.length b.length
+    obtain ⟨bv, hb, _⟩ := stateVal_le_best _ _ _ hv
+    obtain ⟨kb, hkb, hvb⟩ := best_cases _ _ hb
+    exact h3 _ kb bv hkb hvb hb
+  | «local» =>
+    intro hnil
+    simp only [startsAff, List.map_eq_nil_iff, List.filter_eq_nil_iff] at hnil
+    have hmem := listMax_mem 0 (((List.range (a.length + 1)).flatMap fun i =>
+      (List.range (b.length + 1)).map fun j => (i, j)).filterMap
+        fun p => ((affRec .local M go ge a b).val p.1 p.2).m)
+    rcases hmem with h0 | hm
+    · have := hnil (0, 0) (List.mem_flatMap.mpr ⟨0, List.mem_range.mpr (by omega),
+        List.mem_map.mpr ⟨0, List.mem_range.mpr (by omega), rfl⟩⟩)
+      simp [h0, aff_border00] at this
+    · obtain ⟨p, hp, hv⟩ := List.mem_filterMap.mp hm
+      have := hnil p hp
+      simp [hv] at this
+
+/-- the affine traceback returns at least one alignment -/
+theorem C08_traces_nonempty_aff (mode : Mode) (M : Mat) (go ge : Int) (a b : Seq) (mx : Nat) (hmx : 1 ≤ mx) :
+    tracesAff mode M go ge a b (affRec mode M go ge a b).val mx ≠ [] := by
+  intro h
+  rw [tracesAff, List.take_eq_nil_iff] at h
+  rcases h with h | h
+  · omega
+  · have hne := startsAff_ne_nil mode M go ge a b
+    cases hs : startsAff mode (affRec mode M go ge a b).val a.length b.length with
+    | nil => exact hne hs
+    | cons s ss =>
+      rw [hs, List.flatMap_cons, List.append_eq_nil_iff] at h
+      exact followG_nonempty (nextAff mode M go ge a b (affRec mode M go ge a b).val) mx
+        (fun s : ANode => s.1.1 + s.1.2)
+        (fun s d hd => (nextAff_shape mode M go ge a b _ s d hd).2.2) (s.1.1 + s.1.2 + 1) s [] 1 (by omega) h.1
+
+
+/-- the model of `align_optimal` returns at least one alignment for an affine penalty as well (`max_number ≥ 1`);
+with `C08_align_optimal_aff` this completes the affine headline statement. -/
+theorem C08_align_optimal_aff_nonempty (mode : Mode) (M : Mat) (go ge : Int) (a b : Seq) (mx : Nat) (hmx : 1 ≤ mx) :
+    (alignOptimalModel mode (.aff go ge) M a b mx).2 ≠ [] := by
+  have e : (alignOptimalModel mode (.aff go ge) M a b mx).2 = tracesAff mode M go ge a b (affRec mode M go ge a b).val mx :=
+    C08_traces_lookup_aff mode M go ge a b mx
+  rw [e]
+  exact C08_traces_nonempty_aff mode M go ge a b mx hmx
+
+/-! ## Argument refusals (hypothesis audit): where `align_optimal` refuses, exactly -/
+
+/-- `align_optimal` accepts its gap penalty / `max_number` arguments exactly when the penalties are non-positive
+and fit a C int and `1 ≤ max_number < 2³¹`. -/
+theorem C08_args_rejects (gap : Gap) (mx : Int) :
+    argCheck gap mx = none ↔
+      (gap.go ≤ 0 ∧ gap.ge ≤ 0 ∧ 1 ≤ mx ∧ -2147483648 ≤ gap.go ∧ -2147483648 ≤ gap.ge ∧ mx < 2147483648) := by
+  unfold argCheck
+  constructor
+  · intro h
+    split at h
+    · simp at h
+    · split at h
+      · simp at h
+      · split at h
+        · simp at h
+        · split at h
+          · simp at h
+          · omega
+  · intro h
+    have h1 : ¬(gap.go > 0 ∨ gap.ge > 0) := by omega
+    have h2 : ¬(mx < 1) := by omega
+    have h3 : ¬(gap.go < -2147483648 ∨ gap.ge < -2147483648) := by omega
+    have h4 : ¬(mx ≥ 2147483648) := by omega
+    simp [h1, h2, h3, h4]
+
+/-- a positive penalty and `max_number = 0` are refused with ValueError -/
+theorem C08_args_rejects_value :
+    argCheck (.lin 1) 5 = some .valueError ∧ argCheck (.aff (-1) 1) 5 = some .valueError ∧
+    argCheck (.lin (-1)) 0 = some .valueError := by decide
+
+/-- Known finding (code as it is): `max_number ≥ 2³¹` is refused with OverflowError although the property quantifies
+over all `max_number ≥ 1` (full-strength statement: `argCheck gap mx = none` for every `mx ≥ 1`). -/
+theorem C08_max_number_defect : argCheck (.lin (-1)) 2147483648 = some .overflowError := by decide
+
 /-- Known finding, as modelled: affine + not local + an empty sequence raises IndexError. -/
 theorem C08_affine_empty_defect : raisesIndexError .global (.aff (-2) (-1)) [0, 0] [] = true := by decide
 
